@@ -312,6 +312,8 @@ def match_known(prop, cex):
             continue
         if "tag" in m and m["tag"] not in cex.get("tags", []):
             continue
+        if "input_re" in m and not re.search(m["input_re"], bytes(cex.get("input", [])).decode("latin-1"), re.S):
+            continue
         if "peg_re" in m and not re.search(m["peg_re"], cex.get("peg", ""), re.S):
             continue
         return k
